@@ -41,6 +41,13 @@ PLAN = {
  "C12e-bgzf-16-byte-magic": ["C12", "C18"], "C13e-output-not-truncated": ["C13", "C07"], "C14e-normalize-once-any": ["C14", "C06"],
  "C15e-output-not-truncated-bufwriter": ["C15", "C07"], "C16e-qq-exit-zero": ["C16", "C10"], "C17e-descr-fromstr-split-at": ["C17"],
  "C18e-prefix-consume-available": ["C18"], "C19e-then-some-eager": ["C19"],
+ # round 6
+ "C01f-samples-file-comment-lines": ["C01", "C09"], "C02f-error-arm-any-population": ["C02", "C09"], "C03f-clamp-accumulation-at-zero": ["C03", "C13"],
+ "C04f-sum-skips-non-normal": ["C04"], "C05f-nan-sentinel-for-folded": ["C05"], "C06f-precision-overflow-to-zero": ["C06"], "C07f-negative-zero-sign-dropped": ["C07"],
+ "C08f-bcf-contig-by-listing-order": ["C08"], "C09f-labels-trimmed": ["C09"], "C10f-leading-missing-allele-any-ploidy": ["C10", "C08"],
+ "C11f-projection-memo-wrong-key": ["C11", "C02"], "C12f-bcf-magic-five-bytes": ["C12"], "C13f-project-skips-nonpositive": ["C13", "C03"],
+ "C14f-normalize-by-reciprocal": ["C14"], "C15f-shape-entries-u16": ["C15"], "C16f-unparsable-tokens-dropped": ["C16"], "C17f-project-group-multiple": ["C17"],
+ "C18f-broken-pipe-is-ok": ["C18"], "C19f-indices-nth-absolute": ["C19"],
 }
 seeds = sys.argv[1:] or sorted(PLAN)
 for seed in seeds:
